@@ -199,6 +199,25 @@ func derivesFromNewChild(v ssa.Value, seen map[ssa.Value]bool) bool {
 		if cal := x.Call.StaticCallee(); cal != nil && cal.Name() == "NewChild" {
 			return true
 		}
+		// a helper or local closure of the module every return of which yields a child context
+		var g *ssa.Function
+		if cal := x.Call.StaticCallee(); cal != nil && inModule(cal) {
+			g = cal
+		} else if mc, ok := x.Call.Value.(*ssa.MakeClosure); ok {
+			g = mc.Fn.(*ssa.Function)
+		}
+		if g != nil && len(g.Blocks) > 0 && g.Signature.Results().Len() == 1 {
+			all, any := true, false
+			for _, gb := range g.Blocks {
+				if r, ok := gb.Instrs[len(gb.Instrs)-1].(*ssa.Return); ok && len(r.Results) == 1 {
+					any = true
+					if !derivesFromNewChild(r.Results[0], seen) {
+						all = false
+					}
+				}
+			}
+			return all && any
+		}
 	case *ssa.Phi:
 		all := len(x.Edges) > 0
 		for _, e := range x.Edges {
@@ -1567,7 +1586,6 @@ func iteratorPolarity(cond ssa.Value, d int) int {
 	return 0
 }
 
-
 // R9 vars.entry: hcldec.Variables asks the spec itself and every same-body child, whatever the
 // body holds: variables can come from the spec (ExprSpec, defaults) as well as from the body.
 func c07VarsEntry(c *Ctx) {
@@ -1579,26 +1597,98 @@ func c07VarsEntry(c *Ctx) {
 	}
 	c.Fn(FuncName(fn))
 	spec := fn.Params[1]
-	isSpec := func(v ssa.Value) bool { return v == ssa.Value(spec) || isSpillOf(v, spec) || (func() bool {
-		if u, ok := v.(*ssa.UnOp); ok && u.Op == token.MUL {
-			return isSpillOf(u.X, spec)
-		}
-		return false
-	})() }
-	var asserts, visits []*ssa.BasicBlock
-	for _, b := range fn.Blocks {
-		for _, ins := range b.Instrs {
-			switch x := ins.(type) {
-			case *ssa.TypeAssert:
-				if it, ok := x.AssertedType.Underlying().(*types.Interface); ok && isSpec(x.X) {
-					for i := 0; i < it.NumMethods(); i++ {
-						if it.Method(i).Name() == "variablesNeeded" {
-							asserts = append(asserts, b)
+	isSpec := func(v ssa.Value) bool {
+		return v == ssa.Value(spec) || isSpillOf(v, spec) || (func() bool {
+			if u, ok := v.(*ssa.UnOp); ok && u.Op == token.MUL {
+				return isSpillOf(u.X, spec)
+			}
+			return false
+		})()
+	}
+	// what a function does with one of its values: asks it (type assertion to the interface that
+	// has variablesNeeded) / visits its same-body children
+	asksAndVisits := func(f *ssa.Function, is func(ssa.Value) bool) (asks, visits []*ssa.BasicBlock) {
+		for _, b := range f.Blocks {
+			for _, ins := range b.Instrs {
+				switch x := ins.(type) {
+				case *ssa.TypeAssert:
+					if it, ok := x.AssertedType.Underlying().(*types.Interface); ok && is(x.X) {
+						for i := 0; i < it.NumMethods(); i++ {
+							if it.Method(i).Name() == "variablesNeeded" {
+								asks = append(asks, b)
+							}
 						}
 					}
+				case *ssa.Call:
+					if x.Call.IsInvoke() && x.Call.Method.Name() == "visitSameBodyChildren" && is(x.Call.Value) {
+						visits = append(visits, b)
+					}
 				}
-			case *ssa.Call:
-				if x.Call.IsInvoke() && x.Call.Method.Name() == "visitSameBodyChildren" && isSpec(x.Call.Value) {
+			}
+		}
+		return
+	}
+	var closureOf func(v ssa.Value) *ssa.Function
+	closureOf = func(v ssa.Value) *ssa.Function {
+		if ct, ok := v.(*ssa.ChangeType); ok {
+			return closureOf(ct.X)
+		}
+		if mc, ok := v.(*ssa.MakeClosure); ok {
+			return mc.Fn.(*ssa.Function)
+		}
+		if u, ok := v.(*ssa.UnOp); ok && u.Op == token.MUL {
+			if al, ok := u.X.(*ssa.Alloc); ok {
+				var f *ssa.Function
+				for _, st := range storesInto(al) {
+					if g := closureOf(st.Val); g != nil {
+						f = g
+					}
+				}
+				return f
+			}
+		}
+		return nil
+	}
+	asserts, visits := asksAndVisits(fn, isSpec)
+	// a local closure that is handed the spec and does either for its parameter
+	for _, b := range fn.Blocks {
+		for _, ins := range b.Instrs {
+			call, ok := ins.(*ssa.Call)
+			if !ok || call.Call.IsInvoke() {
+				continue
+			}
+			g := closureOf(call.Call.Value)
+			if g == nil || len(g.Params) == 0 {
+				continue
+			}
+			for ai, a := range call.Call.Args {
+				if !isSpec(a) || ai >= len(g.Params) {
+					continue
+				}
+				par := g.Params[ai]
+				ga, gv := asksAndVisits(g, func(v ssa.Value) bool { return v == ssa.Value(par) || isSpillOf(v, par) })
+				// unconditional in the closure: the block dominates every return of it
+				every := func(bs []*ssa.BasicBlock) bool {
+					for _, gb := range g.Blocks {
+						if _, isRet := gb.Instrs[len(gb.Instrs)-1].(*ssa.Return); !isRet {
+							continue
+						}
+						ok := false
+						for _, d := range bs {
+							if d == gb || d.Dominates(gb) {
+								ok = true
+							}
+						}
+						if !ok {
+							return false
+						}
+					}
+					return len(bs) > 0
+				}
+				if every(ga) {
+					asserts = append(asserts, b)
+				}
+				if every(gv) {
 					visits = append(visits, b)
 				}
 			}
